@@ -26,7 +26,7 @@ claim("C08", PBT + " against exact rational determinant and brute-force spanning
 claim("C09", PBT + " against brute-force spanning 2-forests, plus a metamorphic relation between two generated routings of the same kinematics",
       "v equals F/U from an independent enumeration; u, v, jacobian agree between two routings (different tree, basis change, flips, offsets).",
       "Tolerance 1000*eps*kappa*c_V, both computed exactly.", "DESIGN.md §5 C09")
-claim("C10", PBT + " with the momentum-map identities evaluated in exact rational arithmetic on the returned numbers",
+claim("C10", PBT + " with the momentum-map identities evaluated in exact rational arithmetic on the returned numbers, under the metadata/debug settings and again under the default settings, incl. edge data contradicting the mass flags",
       "Scalar identity, vector identity with the metadata Cholesky factor, factor product = L, shift = L^-1 u, for thousands of generated samples incl. Box-Muller/lambda tails.",
       "Domain restricted to points whose gamma quantile is >= 1e-13 (where C12 guarantees lambda) and to the oracle's magnitude range.", "DESIGN.md §5 C10")
 claim("C11", PBT + " against an independent evaluation of the whole weight formula at the unrescaled parameters",
@@ -41,7 +41,7 @@ claim("C13", PBT + " against a reference Box-Muller on the designated coordinate
 claim("C14", PBT + " with dynamic dependency (taint) tracking through a user-supplied scalar type, plus value-level perturbations and role checks in plain f64 with print_debug_info off and on",
       "Per execution: exact dependency sets of L, u, v, jacobian, lambda, each Gaussian component; coverage of all coordinates; trailing coordinates untouched; short points rejected.",
       "Dependency sets are syntactic upper bounds; complemented by perturbation runs.", "DESIGN.md §5 C14")
-claim("C15", PBT + " against exact rational linear algebra (determinant, inverse, factor products)",
+claim("C15", PBT + " against exact rational linear algebra (determinant, inverse, factor products), every matrix under four settings (stability test off/on x debug off/on)",
       "SPD matrices n=1..8 of six structural classes up to cond 1e10: factor shape, R^T R, R^-1 R, determinant, inverse within 1000*eps*cond.",
       "Exact Gauss-Jordan over BigRational as reference.", "DESIGN.md §5 C15")
 claim("C16", PBT + " over all symmetric matrices and over samples with the stability test enabled; exact recomputation of the stability residual; third decider: the generic routine run with an exact-ring user scalar (coarse sqrt and division) and tolerances 0.5..1.001 times the exactly known distance",
@@ -50,7 +50,7 @@ claim("C16", PBT + " over all symmetric matrices and over samples with the stabi
 claim("C17", "model-based / stateful " + PBT + ": histories of sample / rng-sample / clone / serde-copy / thread-burst / constant-point-on-two-samplers / tolerance-threshold operations checked against a first-observation model; cross-process comparison",
       "Bit-equality of every observation with the model across histories, flag combinations, 2-8 concurrent threads and a fresh process; rng equivalence and exact draw count.",
       "Thread schedules sampled, not enumerated; absence of interior mutability reported by a source scan (supplementary).", "DESIGN.md §5 C17")
-claim("C18", PBT + " of a round-trip oracle in two self-describing formats",
+claim("C18", PBT + " of a round-trip oracle in three wire formats (serde_json text, value tree, a positional non-self-describing format written for the harness), compared through f64 and double-double sampling",
       "Restored samplers re-serialise byte-identically, report the same quantities and sample bit-identically (incl. metadata) on 13 generated points each.",
       "serde_json text (float_roundtrip) and its value tree as formats; sampling equality on generated points, not all points.", "DESIGN.md §5 C18")
 claim("C19", PBT + " with two user scalar types: taint tracking of every to_f64/from_f64, and a double-double type whose outputs are checked with exact rationals at 1e-26*kappa, incl. edge choices placed 1e-20..1e-27 beside an exact cumulative boundary",
